@@ -203,7 +203,7 @@ def process(cfgs: List[Dict[str, Any]]) -> Dict[str, Any]:
     from odxtools.exceptions import DecodeError, OdxError
     fails: List[Tuple[str, str, Dict[str, Any]]] = []
     st = {"configs": 0, "clash_configs": 0, "views": 0, "excluded": 0, "overridden": 0, "decodes": 0, "comparam_lookups": 0,
-          "accessor_calls": 0, "default_fallbacks": 0, "protocol_objects": 0, "payload_sizes": 0}
+          "accessor_calls": 0, "default_fallbacks": 0, "protocol_objects": 0, "payload_sizes": 0, "absent_accessors": 0}
 
     def fail(prop: str, clause: str, cfg: Dict[str, Any], detail: Dict[str, Any]) -> None:
         if len(fails) < 300:
@@ -265,6 +265,33 @@ def process(cfgs: List[Dict[str, Any]]) -> Dict[str, Any]:
                     fail("C15", "effective_set", cfg, {"layer": i, "key": key, "expected_owner": own, "present": got is not None})
                 elif got is not None and _cp_owner(got) != own:
                     fail("C15", "effective_owner", cfg, {"layer": i, "key": key, "expected_owner": own, "got_owner": _cp_owner(got)})
+            # accessors of communication parameters that no layer defines: "not used", never an exception; and whether CAN
+            # is in use is whether a response-ID table is in effect for that protocol
+            for proto_ in ("", "L1"):
+                if proto_ and cfg["types"][0] != "PROTOCOL":
+                    continue
+                pa = proto_ or None
+                cpx_eff = next((own_ for (n_, p_, (own_, _w)) in cfg["lookup"][i - 1] if n_ == "cpx" and p_ == proto_), 0)
+                if proto_ == "":
+                    have_ = [(kk, o) for (kk, o) in cfg["eff"][i - 1] if kk[0] == "cpx" and o != 0]
+                    cpx_eff = -1 if len(have_) > 1 else (have_[0][1] if have_ else 0)
+                try:
+                    st["absent_accessors"] += 1
+                    absent = {f: getattr(lay, f)(protocol=pa) for f in (
+                        "get_can_func_req_id", "get_doip_logical_ecu_address", "get_doip_logical_gateway_address",
+                        "get_doip_logical_tester_address", "get_doip_logical_functional_address",
+                        "get_doip_routing_activation_timeout", "get_doip_routing_activation_type", "get_tester_present_time",
+                        "get_can_fd_baudrate")}
+                    wrong = {f: v_ for f, v_ in absent.items() if v_ is not None}
+                    if wrong:
+                        fail("C15", "absent_comparam_has_value", cfg, {"layer": i, "protocol": proto_, "got": {k_: repr(v_) for k_, v_ in wrong.items()}})
+                    if lay.uses_can_fd(protocol=pa) is not False:
+                        fail("C15", "absent_comparam_has_value", cfg, {"layer": i, "protocol": proto_, "got": {"uses_can_fd": True}})
+                    if cpx_eff >= 0 and lay.uses_can(protocol=pa) != (cpx_eff != 0):
+                        fail("C15", "uses_can", cfg, {"layer": i, "protocol": proto_, "expected": cpx_eff != 0})
+                except Exception as e:  # noqa: BLE001
+                    fail("C15", "accessor_raises", cfg, {"layer": i, "name": "absent comparam accessors", "protocol": proto_,
+                                                         "exc": type(e).__name__, "msg": str(e)[:100], "omitted": False})
             for (name, proto, (own, which)) in cfg["lookup"][i - 1]:
                 if proto and (int(proto[1:]) > n or cfg["types"][int(proto[1:]) - 1] != "PROTOCOL"):
                     continue           # not a protocol of this configuration
